@@ -106,7 +106,9 @@ def ns_strategy():
 
 
 # --------------------------------------------------------------------- store
-KEYS = ['k', 'k', '', 'a:b', 'é']
+# keys that contain the namespace separator: (ns (), key 'a:b'), (ns ('a',),
+# key 'b') and friends are different entries whatever string they are joined to
+KEYS = ['k', 'k', '', 'a:b', 'é', 'b', 'b:c', 'c']
 
 
 def _value():
@@ -161,7 +163,10 @@ def store_strategy():
       # a sibling study of the same owner with trials of the same ids and
       # metadata of its own: it must never be read or written
       'sibling': st.sampled_from([False, True]),
-      'namespaces': st.lists(ns, min_size=4, max_size=4),
+      'namespaces': st.one_of(
+          st.lists(ns, min_size=4, max_size=4),
+          st.lists(ns, min_size=1, max_size=1).map(
+              lambda l: [[], ['a'], ['a', 'b']] + l)),
       'ops': st.lists(op, min_size=3, max_size=24),
   })
 
